@@ -89,7 +89,7 @@ def case(draw, tier):
     vals = {p: draw(st.one_of(st.floats(min_value=-5, max_value=5, allow_nan=False).filter(lambda x: abs(x) > 1e-2),
                               st.floats(min_value=-5, max_value=5, allow_nan=False).filter(lambda x: abs(x) > 1e-2),
                               st.sampled_from([1.5, 2.5, 0.5, -1.5, 3.0, 2.0, 0.25, 1.75, -0.5, 4.5, 6.0]),
-                              st.sampled_from([1e6, -3.5e7, 2.25e9, 1e-6, -4e-5, 123456.789]))) for p in params}
+                              st.sampled_from([1e6, -3.5e7, 2.25e9, 1e-6, -4e-5, 123456.789, 4.5678e-11, 1e-20, -3.3e-13, 7.7e-15]))) for p in params}
     swaps = draw(st.lists(st.integers(0, max(0, len(items) - 2)), max_size=10))
     if draw(st.booleans()):
         swaps = [0, 0] + swaps if False else [0] + swaps       # the two leading statements are swapped when they commute
